@@ -17,8 +17,9 @@ def request_callers(ctx):
     users = set()
     for k in ("(*interrupts.Interrupts).RequestVblank", "(*interrupts.Interrupts).RequestStat"):
         users |= {f for f in c.get(k, set()) if not f.startswith("(*interrupts.")}
-    ok = users <= {"(*ppu.PPU).EndMachineCycle"}
-    return ok, "callers of RequestVblank/RequestStat: %s" % sorted(users)
+    from props.common import not_confined
+    nc = not_confined(ctx.prog, users, {"(*ppu.PPU).EndMachineCycle"})
+    return not nc, "callers of RequestVblank/RequestStat: %s; outside EndMachineCycle and its private helpers: %s" % (sorted(users), nc)
 
 
 def tasks(ctx):
